@@ -201,6 +201,16 @@ func (e *bitEnv) eval(x ast.Expr) bval {
 	case *ast.StarExpr:
 		return e.eval(n.X)
 	case *ast.BinaryExpr:
+		// arithmetic on values that are constants in this evaluation (b.HashLen + b.OffsetWidth with both bound)
+		if n.Op == token.ADD || n.Op == token.SUB || n.Op == token.MUL {
+			if v, ok := e.constOf(n); ok && v >= 0 {
+				w := intWidth(e.info.TypeOf(n))
+				if w == 0 {
+					w = 64
+				}
+				return constIntVal(uint64(v), w)
+			}
+		}
 		l := e.eval(n.X)
 		switch n.Op {
 		case token.SHL, token.SHR:
@@ -374,7 +384,36 @@ func (e *bitEnv) evalCall(c *ast.CallExpr) bval {
 			for _, a := range c.Args {
 				args = append(args, e.eval(a))
 			}
-			res, note := evalBitFunc(e.p, callee, nil, args, e.depth+1)
+			// a method called on a struct literal: T{F: x, ...}.M() - the receiver's fields are the literal's elements
+			var recvFields map[string]bval
+			if sel, ok := core.Unparen(c.Fun).(*ast.SelectorExpr); ok {
+				if cl, ok := core.Unparen(sel.X).(*ast.CompositeLit); ok {
+					if st, ok := e.info.TypeOf(cl).Underlying().(*types.Struct); ok {
+						recvFields = map[string]bval{}
+						for i := 0; i < st.NumFields(); i++ {
+							if w := intWidth(st.Field(i).Type()); w > 0 {
+								recvFields[st.Field(i).Name()] = constIntVal(0, w)
+							}
+						}
+						for _, el := range cl.Elts {
+							kv, ok := el.(*ast.KeyValueExpr)
+							if !ok {
+								return e.fail("positional struct literal %s not understood", core.ExprStr(cl))
+							}
+							id, ok := kv.Key.(*ast.Ident)
+							if !ok {
+								continue
+							}
+							v := e.eval(kv.Value)
+							if w := intWidth(e.info.TypeOf(kv.Value)); w > 0 && v.ok && !v.slice {
+								v = v.resize(w)
+							}
+							recvFields[id.Name] = v
+						}
+					}
+				}
+			}
+			res, note := evalBitFunc(e.p, callee, recvFields, args, e.depth+1)
 			if note != "" && e.note == "" {
 				e.note = note
 			}
